@@ -377,6 +377,9 @@ fn gen_case(rng: &mut Rng, c14: bool) -> WriterCase {
     let fmt_heavy = rng.chance(1, 4);
     let nops = if cfg!(miri) {
         2 + rng.small(14)
+    } else if rng.chance(1, 100) {
+        // a long session (hundreds of calls)
+        200 + rng.below(400)
     } else if cap.is_none() {
         5 + rng.small(40)
     } else {
